@@ -680,11 +680,8 @@ def run(ctx, rep, tier="quick"):
     # a suggested value lies inside its domain because every decoded value is clipped to the domain's bounds after it has left the
     # internal (log / integer) scale - shared with C07-S2
     from . import c07
-    sub = type(rep)(rep.prop)
-    c07.s2(ctx, sub)
-    for i in sub.items:
-        i.clause = "S1"
-        rep.items.append(i)
+    from .common import take_over
+    take_over(ctx, rep, c07.s2, "S1")
     c16.restore_unconditional(ctx, rep, "S2")     # the queue of initial configurations comes back as it was saved (shared with C16-S2)
     s1(ctx, rep)
     s2(ctx, rep)
